@@ -42,11 +42,14 @@ def run(chk):
                 "flags, counts, options with optional / = / multiple values, positionals, possible values with a hidden one) with random "
                 "hide / hide_short_help / hide_long_help / next_line_help attributes, plus trees with hidden and flag subcommands; TLC checks "
                 "the column arithmetic sites and help dispatch per subcommand level and emits what each rendering must / must not mention; "
-                "the real -h / --help errors, render_help, render_long_help and render_usage are rendered at %s widths and judged. "
+                "the real -h / --help errors, render_help, render_long_help and render_usage are rendered at %s widths and judged; every level is also "
+                "rendered (short and long) under three custom help templates (default-like with every text tag; the separate {options} / "
+                "{positionals} / {subcommands} tags with an unknown tag and an unclosed brace; a single tag), judged by P12Template: no panic, "
+                "bounded padding, nothing hidden anywhere. "
                 "distinct_nontrivial = distinct (definition, subcommand path) levels." % (250 if quick else 2500, "12" if quick else "201"))
     chk.exhaustive = False
     chk.assumptions = ["names are ASCII sentinels so that a byte is a column and mentions can be located by substring",
-                       "only the default help template is judged"]
+                       "the listing clauses are judged for the default help template only (as stated); custom templates are judged for rendering, padding and hidden items"]
 
 
 def replay(chk, path):
